@@ -478,6 +478,27 @@ class Play:
         self.labels.add("reconstruct:" + ("resume" if state0 is not None else "fresh"))
         self.check_state(ctx, f"step {self.i} reconstruction over the same model")
 
+    async def op_write(self, step):
+        """external write of a valid value"""
+        ctx = self.main
+        if ctx.interp.state is None:
+            return
+        idx = step["state"] % len(self.spec["states"])
+        v = ctx.interp.svalue(idx)
+        via = step["via"]
+        if via == "model":
+            setattr(ctx.sm.model, self.field, v)
+        elif via == "csv":
+            ctx.sm.current_state_value = v
+        else:
+            ctx.sm.current_state = getattr(ctx.sm, self.spec["states"][idx]["id"])
+        ctx.interp.state = idx
+        self.labels.add("write:" + via)
+        if getattr(self, "WRITE_NONTRIVIAL", False):
+            self.nontrivial = True
+        self.check_state(ctx, f"step {self.i} external write of {v!r} via {via}")
+        ctx.H.log.clear()
+
     async def op_sibling(self, step):
         if "sib" in self.ctxs:
             return
